@@ -14,19 +14,33 @@
   1 `upper_tri_index_bijection`   the generated index function is a bijection from `{(i,j) | i<j<n}` onto
                                   `[0, n(n-1)/2)`, equal to the position in `np.triu_indices(n, k=1)` order
   1' `host_index_agrees`          io.py's local copy (floor division, with swap) agrees with it
-  2 `pair_table_eq_spec`          table[idx(g1,g2)] = id of the LAST explicit pair listing {g1,g2} (either order),
+  2a `accepted_has_no_self_pair`  (no hypothesis) if `put_model`'s explicit-pair loop completes, no explicit pair
+                                  lists a geom twice
+  2b `put_model_accepts_iff`      for pairs with geom ids in range: the loop completes iff there is no self pair,
+                                  raises NotImplementedError iff there is one, and never raises IndexError
+  2c `self_pair_has_no_slot`      the reason for the rejection: no table slot holds `(k,k)`; the index io.py
+                                  computes for it is the slot of `(k-1, n-1)`, or `-1`
+  2 `pair_table_eq_spec`          for EVERY accepted configuration (`pairTable c = .ok t`):
+                                  table[idx(g1,g2)] = id of the LAST explicit pair listing {g1,g2} (either order),
                                   else -1 iff `codeRule` (the rule exactly as computed), else -2
   2' `explicitId_some_iff/none_iff`  what "last explicit pair" means
-  3 `spec_matches_property`       under the invariants of compiled models the code's rule is the property's rule
+  3 `spec_matches_property`       for every accepted configuration, under the invariants of compiled models, the
+                                  code's rule is the property's rule
   4 `filtered_pairs_never_emitted` (4 parts) + `add_geom_pair_allocates_one_slot` + `explicit_pair_uses_pair_params`
+
+  Assumed: `PairsInRange` (explicit pairs name geom ids in `[0, ngeom)`: an invariant of every `mjModel`; with ids out
+  of range the NumPy write may wrap or raise IndexError) and, for 3, `Compiled`.  NOT assumed any more: that an
+  explicit pair lists two DISTINCT geoms — that is now a consequence of acceptance (2a).
 
   Findings (witnesses in `Props/C19Witness.lean`)
   -----------------------------------------------
-  F1 (REACHABLE, confirmed on the real code) a DEGENERATE explicit pair `<pair geom1="g" geom2="g"/>` compiles in
-     MuJoCo (which then collides g with itself).  `upper_tri_index(n, k, k) = idx(k-1, n-1)` for `k ≥ 1` and `= -1`
-     for `k = 0`, which NumPy wraps to the LAST entry `(n-2, n-1)`: the pair id is written into the slot of an
-     UNRELATED geom pair, which then collides with the explicit pair's parameters even if its
-     contype/conaffinity are 0.  Hence the hypothesis `p.1 ≠ p.2` of `pair_table_eq_spec`.
+  F1 (REPAIRED in /repo, commit 6cb912c "fix: put_model wrote an explicit contact pair of a geom with itself into
+     another pair's table slot"; found by this check) a DEGENERATE explicit pair `<pair geom1="g" geom2="g"/>`
+     compiles in MuJoCo (which then collides g with itself).  `upper_tri_index(n, k, k) = idx(k-1, n-1)` for `k ≥ 1`
+     and `= -1` for `k = 0`, which NumPy wraps to the LAST entry `(n-2, n-1)`: the pair id used to be written into
+     the slot of an UNRELATED geom pair.  `put_model` now raises NotImplementedError for such a pair; the former
+     hypothesis `p.1 ≠ p.2` of `pair_table_eq_spec` is derived from acceptance, the former witness W1 is deleted,
+     its general form is kept as 2c.
   F2 (reachable, benign-ish) duplicated explicit pairs `(g1,g2)`,`(g2,g1)`: the LAST id wins and ONE contact is
      made; MuJoCo keeps both pairs and reports TWO contacts.
   F3 (not reachable from compiled models) the exclude test uses `(body(geom1) << 16) + body(geom2)` with
@@ -139,41 +153,117 @@ theorem dynEntry_spec (c : Cfg) (g1 g2 : Int) :
   · intro h; rw [if_pos (key.mpr h)]
   · intro h; rw [if_neg (fun hk => h (key.mp hk))]
 
-/-- validity of the explicit pairs (what the MuJoCo compiler guarantees, EXCEPT `p.1 ≠ p.2`, see F1) -/
-def PairsValid (c : Cfg) : Prop :=
-  ∀ p ∈ c.pairs, 0 ≤ p.1 ∧ p.1 < c.ngeom ∧ 0 ≤ p.2 ∧ p.2 < c.ngeom ∧ p.1 ≠ p.2
+/-- the explicit pairs name geoms: `pair_geom1[i]`, `pair_geom2[i]` are geom ids (an invariant of every `mjModel`).
+    Nothing is assumed about `p.1 ≠ p.2`: MuJoCo compiles `<pair geom1="g" geom2="g"/>`; `put_model` rejects it. -/
+def PairsInRange (c : Cfg) : Prop :=
+  ∀ p ∈ c.pairs, 0 ≤ p.1 ∧ p.1 < c.ngeom ∧ 0 ≤ p.2 ∧ p.2 < c.ngeom
 
-/-- (2) **pair_table_eq_spec**.  For every configuration with valid explicit pairs `put_model` does not raise,
-    the table has `n(n-1)/2` entries and, for all geoms `g1 < g2 < ngeom`, the entry at the generated index is
+/-- (2a) **accepted_has_no_self_pair** (no hypothesis at all).  If the explicit-pair loop of `put_model` completes,
+    no explicit pair lists a geom twice: the test `pair_geom1[i] == pair_geom2[i]` precedes every write. -/
+theorem accepted_has_no_self_pair (c : Cfg) (t : List Int) (ht : pairTable c = .ok t) :
+    ∀ p ∈ c.pairs, p.1 ≠ p.2 :=
+  applyPairs_ok_no_self (Int.ofNat c.ngeom) c.pairs 0 (baseTable c) t ht
+
+/-- the write index of a proper in-range pair is the triu position of the sorted pair -/
+private theorem write_index (c : Cfg) (hr : PairsInRange c) :
+    ∀ p ∈ c.pairs, p.1 ≠ p.2 →
+      ∃ q : Nat, upperTriIndex (Int.ofNat c.ngeom) p.1 p.2 = (q : Int) ∧ q < (triu c.ngeom).length
+        ∧ ∃ a b : Nat, a < b ∧ b < c.ngeom ∧ q = natIdx c.ngeom a b
+            ∧ ((p.1 = a ∧ p.2 = b) ∨ (p.1 = b ∧ p.2 = a)) := by
+  intro p hpm h5
+  obtain ⟨h1, h2, h3, h4⟩ := hr p hpm
+  obtain ⟨a, ha⟩ : ∃ a : Nat, p.1 = a := ⟨p.1.toNat, by omega⟩
+  obtain ⟨b, hb⟩ : ∃ b : Nat, p.2 = b := ⟨p.2.toNat, by omega⟩
+  rw [ha, hb]
+  rcases Nat.lt_or_ge a b with hab | hab
+  · exact ⟨natIdx c.ngeom a b, (host_upper_tri_index c.ngeom a b hab (by omega)).1,
+      natIdx_lt c.ngeom a b hab (by omega), a, b, hab, by omega, rfl, Or.inl ⟨rfl, rfl⟩⟩
+  · have hba : b < a := by omega
+    exact ⟨natIdx c.ngeom b a, (host_upper_tri_index c.ngeom b a hba (by omega)).2,
+      natIdx_lt c.ngeom b a hba (by omega), b, a, hba, by omega, rfl, Or.inr ⟨rfl, rfl⟩⟩
+
+/-- (2b) **put_model_accepts_iff**.  For explicit pairs with geom ids in range the loop has exactly two outcomes:
+    it completes iff NO explicit pair lists a geom twice, and raises NotImplementedError iff one does; IndexError
+    is impossible. -/
+theorem put_model_accepts_iff (c : Cfg) (hr : PairsInRange c) :
+    ((∃ t, pairTable c = .ok t) ↔ ∀ p ∈ c.pairs, p.1 ≠ p.2)
+    ∧ (pairTable c = .notImplemented ↔ ∃ p ∈ c.pairs, p.1 = p.2)
+    ∧ pairTable c ≠ .indexError := by
+  have hbase : (baseTable c).length = (triu c.ngeom).length := by simp [baseTable]
+  have hok : (∀ p ∈ c.pairs, p.1 ≠ p.2) → ∃ t, pairTable c = .ok t := by
+    intro hns
+    obtain ⟨t, ht, -⟩ := applyPairs_spec (Int.ofNat c.ngeom) (triu c.ngeom).length c.pairs
+      (fun p hpm => ⟨hns p hpm, by obtain ⟨q, h1, h2, -⟩ := write_index c hr p hpm (hns p hpm); exact ⟨q, h1, h2⟩⟩)
+      0 (baseTable c) hbase
+    exact ⟨t, ht⟩
+  have hrej : (∃ p ∈ c.pairs, p.1 = p.2) → pairTable c = .notImplemented := fun hex =>
+    applyPairs_self_rejected (Int.ofNat c.ngeom) (triu c.ngeom).length c.pairs
+      (fun p hpm hne => by obtain ⟨q, h1, h2, -⟩ := write_index c hr p hpm hne; exact ⟨q, h1, h2⟩)
+      hex 0 (baseTable c) hbase
+  have hcases : (∀ p ∈ c.pairs, p.1 ≠ p.2) ∨ ∃ p ∈ c.pairs, p.1 = p.2 := by
+    by_cases h : ∃ p ∈ c.pairs, p.1 = p.2
+    · exact Or.inr h
+    · exact Or.inl (fun p hpm he => h ⟨p, hpm, he⟩)
+  refine ⟨⟨fun ⟨t, ht⟩ => accepted_has_no_self_pair c t ht, hok⟩, ⟨?_, hrej⟩, ?_⟩
+  · intro hni
+    rcases hcases with hns | hex
+    · obtain ⟨t, ht⟩ := hok hns
+      rw [hni] at ht; cases ht
+    · exact hex
+  · intro hie
+    rcases hcases with hns | hex
+    · obtain ⟨t, ht⟩ := hok hns
+      rw [hie] at ht; cases ht
+    · rw [hrej hex] at hie; cases hie
+
+/-- (2c) **self_pair_has_no_slot**: the REASON for the rejection.  The table has one slot per unordered pair of
+    DISTINCT geoms: no slot holds `(k, k)`; and the index io.py's `upper_tri_index` computes for `(k, k)`, `k < n`,
+    is the slot of the unrelated pair `(k-1, n-1)` for `k ≥ 1`, and `-1` (NumPy: the LAST slot, that of
+    `(n-2, n-1)`) for `k = 0` — a write there would replace the entry of two OTHER geoms (the defect repaired by
+    /repo commit 6cb912c). -/
+theorem self_pair_has_no_slot {K : Type} [Scalar K] (n k : Nat) (hk : k < n) :
+    (∀ q (hq : q < (triu n).length), (triu n)[q] ≠ (k, k))
+    ∧ (1 ≤ k → upperTriIndex n k k = Gen.Math.upper_tri_index (K := K) n ((k - 1 : Nat) : Int) ((n - 1 : Nat) : Int))
+    ∧ (k = 0 → upperTriIndex n k k = -1) := by
+  have h := self_pair_index n k hk
+  refine ⟨?_, ?_, ?_⟩
+  · intro q hq he
+    have hm : (k, k) ∈ triu n := he ▸ List.getElem_mem hq
+    have := (mem_triu n k k).mp hm
+    omega
+  · intro h1
+    rw [gen_upper_tri_index n (k - 1) (n - 1) (by omega) (by omega), h, if_neg (by omega)]
+  · intro h0
+    rw [h, if_pos h0]
+
+/-- (2) **pair_table_eq_spec**.  For EVERY configuration that `put_model` accepts (explicit pairs with geom ids in
+    range) the table has `n(n-1)/2` entries and, for all geoms `g1 < g2 < ngeom`, the entry at the generated index is
       * the id of the LAST explicit pair that lists `{g1, g2}` in either order, if there is one
         (`explicitId`, characterised by `explicitId_some_iff`);
-      * otherwise `-1` if `codeRule` holds and `-2` if it does not. -/
-theorem pair_table_eq_spec {K : Type} [Scalar K] (c : Cfg) (hp : PairsValid c) :
-    ∃ t, pairTable c = some t ∧ 2 * t.length = c.ngeom * (c.ngeom - 1) ∧
+      * otherwise `-1` if `codeRule` holds and `-2` if it does not.
+    (Which configurations are accepted: `put_model_accepts_iff`.) -/
+theorem pair_table_eq_spec {K : Type} [Scalar K] (c : Cfg) (hr : PairsInRange c) (t : List Int)
+    (hacc : pairTable c = .ok t) :
+    2 * t.length = c.ngeom * (c.ngeom - 1) ∧
       ∀ g1 g2 : Nat, g1 < g2 → g2 < c.ngeom →
         ∃ e, t[(Gen.Math.upper_tri_index (K := K) c.ngeom g1 g2).toNat]? = some e ∧
           (∀ k, explicitId c.pairs g1 g2 = some k → e = k) ∧
           (explicitId c.pairs g1 g2 = none →
             (codeRule c g1 g2 → e = -1) ∧ (¬ codeRule c g1 g2 → e = -2)) := by
-  -- every write index is in range
+  -- acceptance excludes self pairs; hence every write index is in range
+  have hns := accepted_has_no_self_pair c t hacc
   have hidx : ∀ p ∈ c.pairs, ∃ q : Nat, upperTriIndex (Int.ofNat c.ngeom) p.1 p.2 = (q : Int) ∧ q < (triu c.ngeom).length
       ∧ ∃ a b : Nat, a < b ∧ b < c.ngeom ∧ q = natIdx c.ngeom a b
-          ∧ ((p.1 = a ∧ p.2 = b) ∨ (p.1 = b ∧ p.2 = a)) := by
-    intro p hpm
-    obtain ⟨h1, h2, h3, h4, h5⟩ := hp p hpm
-    obtain ⟨a, ha⟩ : ∃ a : Nat, p.1 = a := ⟨p.1.toNat, by omega⟩
-    obtain ⟨b, hb⟩ : ∃ b : Nat, p.2 = b := ⟨p.2.toNat, by omega⟩
-    rw [ha, hb]
-    rcases Nat.lt_or_ge a b with hab | hab
-    · exact ⟨natIdx c.ngeom a b, (host_upper_tri_index c.ngeom a b hab (by omega)).1,
-        natIdx_lt c.ngeom a b hab (by omega), a, b, hab, by omega, rfl, Or.inl ⟨rfl, rfl⟩⟩
-    · have hba : b < a := by omega
-      exact ⟨natIdx c.ngeom b a, (host_upper_tri_index c.ngeom b a hba (by omega)).2,
-        natIdx_lt c.ngeom b a hba (by omega), b, a, hba, by omega, rfl, Or.inr ⟨rfl, rfl⟩⟩
+          ∧ ((p.1 = a ∧ p.2 = b) ∨ (p.1 = b ∧ p.2 = a)) :=
+    fun p hpm => write_index c hr p hpm (hns p hpm)
   have hbase : (baseTable c).length = (triu c.ngeom).length := by simp [baseTable]
-  obtain ⟨t, ht1, ht2, ht3⟩ := applyPairs_spec (Int.ofNat c.ngeom) (triu c.ngeom).length c.pairs
-    (fun p hpm => by obtain ⟨q, h1, h2, -⟩ := hidx p hpm; exact ⟨q, h1, h2⟩) 0 (baseTable c) hbase
-  refine ⟨t, ht1, by rw [ht2]; exact two_triu_length c.ngeom, ?_⟩
+  obtain ⟨t', ht1, ht2, ht3⟩ := applyPairs_spec (Int.ofNat c.ngeom) (triu c.ngeom).length c.pairs
+    (fun p hpm => ⟨hns p hpm, by obtain ⟨q, h1, h2, -⟩ := hidx p hpm; exact ⟨q, h1, h2⟩⟩) 0 (baseTable c) hbase
+  have htt : t' = t := by
+    have : Outcome.ok t' = Outcome.ok t := by rw [← ht1]; exact hacc
+    exact Outcome.ok.inj this
+  subst htt
+  refine ⟨by rw [ht2]; exact two_triu_length c.ngeom, ?_⟩
   intro g1 g2 h12 h2n
   rw [gen_upper_tri_index c.ngeom g1 g2 h12 h2n, Int.toNat_natCast]
   have hpos := natIdx_lt c.ngeom g1 g2 h12 h2n
@@ -281,16 +371,16 @@ theorem codeRule_iff_propertyRule (c : Cfg) (excl : List (Int × Int)) (hc : Com
   unfold codeRule propertyRule parentChild
   rw [hsig]
 
-/-- (3) **spec_matches_property**.  For a compiled model (`Compiled`) with valid explicit pairs, and all geoms
+/-- (3) **spec_matches_property**.  For a compiled model (`Compiled`) that `put_model` accepts
+    (`pairTable c = .ok t`; by `put_model_accepts_iff`: no explicit pair of a geom with itself), and all geoms
     `g1 < g2`, the table entry `e` at the generated index satisfies
       * `e ≠ -2` ("the pair may be reported") iff the pair is an explicit contact pair OR passes the property's
         dynamic rule;
       * `e ≥ 0` iff the pair is an explicit contact pair, and then `e` is a valid pair id that lists `{g1,g2}`
         (the consumers then use the PAIR's parameters: `explicit_pair_uses_pair_params`);
       * `e = -1` iff it is not explicit and passes the dynamic rule (geom parameters are mixed). -/
-theorem spec_matches_property {K : Type} [Scalar K] (c : Cfg) (excl : List (Int × Int)) (hp : PairsValid c)
-    (hc : Compiled c excl) :
-    ∃ t, pairTable c = some t ∧
+theorem spec_matches_property {K : Type} [Scalar K] (c : Cfg) (excl : List (Int × Int)) (hr : PairsInRange c)
+    (hc : Compiled c excl) (t : List Int) (hacc : pairTable c = .ok t) :
       ∀ g1 g2 : Nat, g1 < g2 → g2 < c.ngeom →
         ∃ e, t[(Gen.Math.upper_tri_index (K := K) c.ngeom g1 g2).toNat]? = some e ∧
           let isExplicit := ∃ p ∈ c.pairs, (p.1 = g1 ∧ p.2 = g2) ∨ (p.1 = g2 ∧ p.2 = g1)
@@ -298,8 +388,7 @@ theorem spec_matches_property {K : Type} [Scalar K] (c : Cfg) (excl : List (Int 
           ∧ (0 ≤ e ↔ isExplicit)
           ∧ (0 ≤ e → ∃ h : e.toNat < c.pairs.length, e = e.toNat ∧ listsPair g1 g2 c.pairs[e.toNat] = true)
           ∧ (e = -1 ↔ (¬ isExplicit ∧ propertyRule c excl g1 g2)) := by
-  obtain ⟨t, ht, -, hspec⟩ := pair_table_eq_spec (K := K) c hp
-  refine ⟨t, ht, ?_⟩
+  obtain ⟨-, hspec⟩ := pair_table_eq_spec (K := K) c hr t hacc
   intro g1 g2 h12 h2n
   obtain ⟨e, he, hsome, hnone⟩ := hspec g1 g2 h12 h2n
   refine ⟨e, he, ?_⟩
@@ -425,13 +514,38 @@ def exCfg (fp : Bool) (pairs : List (Int × Int)) : Cfg :=
     body_weldid := asFun [0, 1, 2, 3], body_parentid := asFun [0, 0, 1, 0], filterparent := fp,
     pairs := pairs, excludes := [1 * 65536 + 3] }
 
-example : pairTable (exCfg true []) = some [-1, -1, -1, -2, -2, -1] := by decide
-example : pairTable (exCfg false []) = some [-1, -1, -1, -1, -2, -1] := by decide
-example : pairTable (exCfg true [(2, 1), (1, 2), (3, 0)]) = some [-1, -1, 2, 1, -2, -1] := by decide
-example : PairsValid (exCfg true [(2, 1), (1, 2), (3, 0)]) := by
+example : pairTable (exCfg true []) = .ok [-1, -1, -1, -2, -2, -1] := by decide
+example : pairTable (exCfg false []) = .ok [-1, -1, -1, -1, -2, -1] := by decide
+-- hypotheses of `pair_table_eq_spec` / `spec_matches_property` are satisfiable with explicit pairs present
+example : pairTable (exCfg true [(2, 1), (1, 2), (3, 0)]) = .ok [-1, -1, 2, 1, -2, -1] := by decide
+example : PairsInRange (exCfg true [(2, 1), (1, 2), (3, 0)]) := by
   intro p hp
   simp only [exCfg, List.mem_cons, List.not_mem_nil, or_false] at hp
   rcases hp with rfl | rfl | rfl <;> decide
+example : Compiled (exCfg true [(2, 1), (1, 2), (3, 0)]) [(1, 3)] where
+  body_range := by
+    intro g hg
+    have : g = 0 ∨ g = 1 ∨ g = 2 ∨ g = 3 := by simp only [exCfg] at hg; omega
+    rcases this with rfl | rfl | rfl | rfl <;> decide
+  mono := by
+    intro g g' h1 h2
+    have hg' : g' = 0 ∨ g' = 1 ∨ g' = 2 ∨ g' = 3 := by simp only [exCfg] at h2; omega
+    have hg : g = 0 ∨ g = 1 ∨ g = 2 ∨ g = 3 := by simp only [exCfg] at h2; omega
+    rcases hg' with rfl | rfl | rfl | rfl <;> rcases hg with rfl | rfl | rfl | rfl <;> first | decide | omega
+  excl_norm := by intro e he; simp only [List.mem_cons, List.not_mem_nil, or_false] at he; subst he; decide
+  excl_sig := by decide
+-- both sides of `put_model_accepts_iff`: a self pair (in range) is rejected, wherever it stands in the list
+example : PairsInRange (exCfg true [(2, 1), (3, 3)]) := by
+  intro p hp
+  simp only [exCfg, List.mem_cons, List.not_mem_nil, or_false] at hp
+  rcases hp with rfl | rfl <;> decide
+example : pairTable (exCfg true [(2, 1), (3, 3)]) = .notImplemented := by decide
+example : pairTable (exCfg true [(0, 0)]) = .notImplemented := by decide
+-- ids out of range (excluded by `PairsInRange`): IndexError, or — NumPy wrap — a silent write to another slot
+example : pairTable (exCfg true [(0, 7)]) = .indexError := by decide
+example : pairTable (exCfg true [(-1, 2)]) = .ok [-1, -1, -1, -2, 0, -1] := by decide
+-- `self_pair_has_no_slot` in numbers (n = 4): (3,3) → 5 = slot of (2,3); (0,0) → -1
+example : upperTriIndex 4 3 3 = 5 ∧ (triu 4)[5]? = some (2, 3) ∧ upperTriIndex 4 0 0 = -1 := by decide
 example : explicitId [(2, 1), (1, 2), (3, 0)] 1 2 = some 1 := by decide
 example : (List.range 6).map (fun k => Gen.Math.upper_tri_index (K := Float) 4 ((triu 4)[k]!).1 ((triu 4)[k]!).2)
     = [0, 1, 2, 3, 4, 5] := by decide
